@@ -40,8 +40,8 @@ None == [k |-> "none"]
 P    == [k |-> "P"]
 AnyA == -1   \* the Any() expression as a condition argument
 
-VARIABLES entry, ph, patches, mk, exp, cfg, touched, phr, hist
-vars == <<entry, ph, patches, mk, exp, cfg, touched, phr, hist>>
+VARIABLES entry, ph, patches, mk, exp, cfg, touched, phr, lg, hist
+vars == <<entry, ph, patches, mk, exp, cfg, touched, phr, lg, hist>>
 
 NoMk == [ex |-> FALSE, canceled |-> FALSE, imp |-> None, when |-> None, guard |-> None, origin |-> FALSE]
 Orig == [k |-> "orig"]
@@ -55,6 +55,7 @@ Init == /\ entry = [t \in T |-> P]
         /\ cfg = [b \in B |-> [t \in T |-> FALSE]]
         /\ touched = [b \in B |-> [t \in T |-> FALSE]]
         /\ phr = [t \in T |-> "P"]
+        /\ lg = [console |-> "warn", level |-> "info"]
         /\ hist = <<>>
 
 Min(x, y) == IF x < y THEN x ELSE y
@@ -68,7 +69,11 @@ GetMk(b, t) == IF mk[b][t].ex /\ ~mk[b][t].canceled THEN mk[b][t] ELSE [NoMk EXC
 \* patch.replaceFunc + Guard.Apply: a previous patch of t is unpatched through the table (its
 \* captured bytes are written back), the bytes now at the entry are captured, the jump is written.
 BytesAfterUnpatch(t) == IF patches[t] # None THEN patches[t].ob ELSE entry[t]
-MfFv(b, t) == [k |-> "mf", b |-> b, t |-> t]
+\* debug.go interceptDebugInfo: the replacement is wrapped by a logging MakeFunc iff the console level is
+\* debug AT APPLY TIME; the wrapper must be transparent (C19), so no call rule below looks at w
+Wrapped == lg.console = "debug"
+
+MfFv(b, t) == [k |-> "mf", b |-> b, t |-> t, w |-> Wrapped]
 
 \* results of the mechanism's patch step as a record (entry', patches', guard)
 PatchRec(t, fv) == LET e1 == BytesAfterUnpatch(t) IN
@@ -131,22 +136,23 @@ Log(rec) == hist' = Append(hist, rec)
 \* handle.Apply(cb): drops the handle's When object (since fix ccd7848), re-patches
 Apply(b, t, c) ==
     /\ "Apply" \in Ops
-    /\ LET m == GetMk(b, t) IN LET pr == PatchRec(t, [k |-> "cb", c |-> c]) IN
+    /\ LET m == GetMk(b, t) IN LET pr == PatchRec(t, [k |-> "cb", c |-> c, w |-> Wrapped]) IN
        /\ entry' = pr.entry /\ patches' = pr.patches
        /\ mk' = [mk EXCEPT ![b][t] = [m EXCEPT !.imp = [k |-> "cb", c |-> c], !.guard = pr.guard, !.when = None]]
     /\ Instruct(b, t, [k |-> "cb", c |-> c])
-    /\ UNCHANGED <<ph, phr>>
+    /\ UNCHANGED <<ph, phr, lg>>
     /\ Log([op |-> "Apply", b |-> b, t |-> t, c |-> c, obs |-> Obs(exp', phr'), panic |-> ""])
 
 \* handle.Origin(&placeholder).Apply(callback that calls the placeholder)
 ApplyO(b, t) ==
     /\ "ApplyO" \in Ops
-    /\ LET m == GetMk(b, t) IN LET pr == PatchRec(t, [k |-> "cbo"]) IN
+    /\ LET m == GetMk(b, t) IN LET pr == PatchRec(t, [k |-> "cbo", w |-> Wrapped]) IN
        /\ entry' = pr.entry /\ patches' = pr.patches
        /\ ph' = [ph EXCEPT ![t] = "T"]
        /\ mk' = [mk EXCEPT ![b][t] = [m EXCEPT !.imp = [k |-> "cbo"], !.guard = pr.guard, !.when = None, !.origin = TRUE]]
     /\ Instruct(b, t, [k |-> "cbo"])
     /\ phr' = [phr EXCEPT ![t] = "T"]
+    /\ UNCHANGED lg
     /\ Log([op |-> "ApplyO", b |-> b, t |-> t, obs |-> Obs(exp', phr'), panic |-> ""])
 
 \* stub instructions; kind in {"Return","Returns","When"}:
@@ -179,7 +185,7 @@ Stub(kind, b, t, a, rs) ==
                  ELSE (IF e.k \in {"stub", "free"} THEN Free     \* bare Return on an existing configuration
                        ELSE [k |-> "stub", def |-> NewMatcher(AnyA, rs), conds |-> <<>>]) IN
        Instruct(b, t, e2)
-    /\ UNCHANGED phr
+    /\ UNCHANGED <<phr, lg>>
     /\ Log([op |-> kind, b |-> b, t |-> t, a |-> a, rs |-> rs, obs |-> Obs(exp', phr'), panic |-> ""])
 
 \* handle.Cancel() (the lookup may create a fresh, never applied mocker)
@@ -191,7 +197,7 @@ Cancel(b, t) ==
        /\ mk' = [mk EXCEPT ![b][t] = CancelMk(m)]
     /\ exp' = [exp EXCEPT ![t] = IF cfg[b][t] THEN Orig ELSE @]
     /\ cfg' = [cfg EXCEPT ![b][t] = FALSE]
-    /\ UNCHANGED <<patches, ph, phr, touched>>
+    /\ UNCHANGED <<patches, ph, phr, touched, lg>>
     /\ Log([op |-> "Cancel", b |-> b, t |-> t, obs |-> Obs(exp', phr'), panic |-> ""])
 
 \* Builder.Reset(): Cancel on every cached mocker (order irrelevant: the writes commute)
@@ -201,7 +207,7 @@ Reset(b) ==
     /\ mk' = [mk EXCEPT ![b] = [t \in T |-> IF mk[b][t].ex THEN CancelMk(mk[b][t]) ELSE mk[b][t]]]
     /\ exp' = [t \in T |-> IF cfg[b][t] THEN Orig ELSE exp[t]]
     /\ cfg' = [cfg EXCEPT ![b] = [t \in T |-> FALSE]]
-    /\ UNCHANGED <<patches, ph, phr, touched>>
+    /\ UNCHANGED <<patches, ph, phr, touched, lg>>
     /\ Log([op |-> "Reset", b |-> b, obs |-> Obs(exp', phr'), panic |-> ""])
 
 \* a call t(a) from another package
@@ -227,7 +233,7 @@ Call(t, a) ==
        /\ mk' = i.mk
        /\ exp' = r.exp
        /\ Log([op |-> "Call", t |-> t, a |-> a, res |-> r.res, ires |-> i.res, obs |-> Obs(exp', phr), panic |-> ""])
-    /\ UNCHANGED <<entry, ph, patches, cfg, touched, phr>>
+    /\ UNCHANGED <<entry, ph, patches, cfg, touched, phr, lg>>
 
 \* calling t's origin placeholder directly: the original, once goom has rewritten it
 CallPh(t, a) ==
@@ -235,11 +241,21 @@ CallPh(t, a) ==
     /\ phr[t] = "T"
     /\ Log([op |-> "CallPh", t |-> t, a |-> a, res |-> "orig",
             ires |-> IF ph[t] = "T" THEN "orig" ELSE "ph", obs |-> Obs(exp, phr), panic |-> ""])
+    /\ UNCHANGED <<entry, ph, patches, mk, exp, cfg, touched, phr, lg>>
+
+\* logging switches (builder.go OpenDebug/CloseDebug/OpenTrace/CloseTrace -> logger): they change lg only
+LogOp(name) ==
+    /\ name \in Ops
+    /\ lg' = CASE name = "OpenDebug"  -> [lg EXCEPT !.console = "debug"]
+              [] name = "CloseDebug" -> [lg EXCEPT !.console = "warn"]
+              [] name = "OpenTrace"  -> [console |-> "debug", level |-> "trace"]
+              [] name = "CloseTrace" -> [console |-> "warn", level |-> "info"]
     /\ UNCHANGED <<entry, ph, patches, mk, exp, cfg, touched, phr>>
+    /\ Log([op |-> name, obs |-> Obs(exp, phr), panic |-> ""])
 
 \* the last step of a generated behaviour: a single successor, so that in -simulate mode exactly
 \* the behaviour TLC walked is printed (constraints/invariants are evaluated on every candidate successor)
-Finish == Len(hist) = MaxOps /\ hist' = Append(hist, [op |-> "End"]) /\ UNCHANGED <<entry, ph, patches, mk, exp, cfg, touched, phr>>
+Finish == Len(hist) = MaxOps /\ hist' = Append(hist, [op |-> "End"]) /\ UNCHANGED <<entry, ph, patches, mk, exp, cfg, touched, phr, lg>>
 
 Next == \/ Finish
         \/ /\ Len(hist) < MaxOps
@@ -250,6 +266,7 @@ Next == \/ Finish
               \/ \E b \in B, t \in T : Cancel(b, t)
               \/ \E b \in B : Reset(b)
               \/ \E t \in T, a \in A : Call(t, a) \/ CallPh(t, a)
+              \/ \E n \in {"OpenDebug", "CloseDebug", "OpenTrace", "CloseTrace"} : LogOp(n)
 
 Spec == Init /\ [][Next]_vars
 
@@ -279,6 +296,6 @@ CursorsInRange == \A b \in B, t \in T : mk[b][t].when # None =>
                      /\ (mk[b][t].when.def # None => mk[b][t].when.def.n <= Len(mk[b][t].when.def.rs))
                      /\ \A i \in 1..Len(mk[b][t].when.conds) : mk[b][t].when.conds[i].n <= Len(mk[b][t].when.conds[i].rs)
 
-View == <<entry, ph, patches, mk, exp, cfg, touched, phr, Len(hist)>>
+View == <<entry, ph, patches, mk, exp, cfg, touched, phr, lg, Len(hist)>>
 Emit == Len(hist) = MaxOps + 1 => PrintT(ToJson(SubSeq(hist, 1, MaxOps)))
 =============================================================================
